@@ -22,7 +22,7 @@ const (
 )
 
 // DBHook observes or perturbs a storage call. args depends on the method.
-type DBHook func(method string, ph Phase, args any) error
+type DBHook func(ctx context.Context, method string, ph Phase, args any) error
 
 // DBWrap decorates the server's database (backend.Backend.DB is an exported
 // interface field) to observe and fault the storage calls of the sync path.
@@ -63,14 +63,14 @@ func (w *DBWrap) CreateChangeInfos(
 	h := w.h()
 	args := &CreateChangeInfosArgs{Doc: docRefKey, CP: cp, Changes: changes, IsRemoved: isRemoved}
 	if h != nil {
-		if err := h("CreateChangeInfos", Before, args); err != nil {
+		if err := h(ctx, "CreateChangeInfos", Before, args); err != nil {
 			return nil, change.InitialCheckpoint, err
 		}
 	}
 	d, c, err := w.Database.CreateChangeInfos(ctx, docRefKey, cp, changes, isRemoved)
 	if h != nil && err == nil {
 		args.ResDoc, args.ResCP = d, c
-		if herr := h("CreateChangeInfos", After, args); herr != nil {
+		if herr := h(ctx, "CreateChangeInfos", After, args); herr != nil {
 			return nil, change.InitialCheckpoint, herr
 		}
 	}
@@ -83,13 +83,13 @@ func (w *DBWrap) UpdateClientInfoAfterPushPull(
 ) error {
 	h := w.h()
 	if h != nil {
-		if err := h("UpdateClientInfoAfterPushPull", Before, clientInfo); err != nil {
+		if err := h(ctx, "UpdateClientInfoAfterPushPull", Before, clientInfo); err != nil {
 			return err
 		}
 	}
 	err := w.Database.UpdateClientInfoAfterPushPull(ctx, clientInfo, docInfo)
 	if h != nil && err == nil {
-		if herr := h("UpdateClientInfoAfterPushPull", After, clientInfo); herr != nil {
+		if herr := h(ctx, "UpdateClientInfoAfterPushPull", After, clientInfo); herr != nil {
 			return herr
 		}
 	}
@@ -111,14 +111,14 @@ func (w *DBWrap) UpdateMinVersionVector(
 	h := w.h()
 	args := &MinVVArgs{Client: clientInfo, Doc: docRefKey, Vector: vector}
 	if h != nil {
-		if err := h("UpdateMinVersionVector", Before, args); err != nil {
+		if err := h(ctx, "UpdateMinVersionVector", Before, args); err != nil {
 			return nil, err
 		}
 	}
 	v, err := w.Database.UpdateMinVersionVector(ctx, clientInfo, docRefKey, vector)
 	if h != nil && err == nil {
 		args.Res = v
-		if herr := h("UpdateMinVersionVector", After, args); herr != nil {
+		if herr := h(ctx, "UpdateMinVersionVector", After, args); herr != nil {
 			return nil, herr
 		}
 	}
@@ -132,14 +132,14 @@ func (w *DBWrap) GetMinVersionVector(
 	h := w.h()
 	args := &MinVVArgs{Doc: docRefKey, Vector: vector}
 	if h != nil {
-		if err := h("GetMinVersionVector", Before, args); err != nil {
+		if err := h(ctx, "GetMinVersionVector", Before, args); err != nil {
 			return nil, err
 		}
 	}
 	v, err := w.Database.GetMinVersionVector(ctx, docRefKey, vector)
 	if h != nil && err == nil {
 		args.Res = v
-		if herr := h("GetMinVersionVector", After, args); herr != nil {
+		if herr := h(ctx, "GetMinVersionVector", After, args); herr != nil {
 			return nil, herr
 		}
 	}
@@ -160,14 +160,14 @@ func (w *DBWrap) FindChangeInfosBetweenServerSeqs(
 	h := w.h()
 	args := &RangeArgs{Doc: docRefKey, From: from, To: to}
 	if h != nil {
-		if err := h("FindChangeInfosBetweenServerSeqs", Before, args); err != nil {
+		if err := h(ctx, "FindChangeInfosBetweenServerSeqs", Before, args); err != nil {
 			return nil, err
 		}
 	}
 	r, err := w.Database.FindChangeInfosBetweenServerSeqs(ctx, docRefKey, from, to)
 	if h != nil && err == nil {
 		args.N = len(r)
-		if herr := h("FindChangeInfosBetweenServerSeqs", After, args); herr != nil {
+		if herr := h(ctx, "FindChangeInfosBetweenServerSeqs", After, args); herr != nil {
 			return nil, herr
 		}
 	}
@@ -181,14 +181,14 @@ func (w *DBWrap) FindChangesBetweenServerSeqs(
 	h := w.h()
 	args := &RangeArgs{Doc: docRefKey, From: from, To: to}
 	if h != nil {
-		if err := h("FindChangesBetweenServerSeqs", Before, args); err != nil {
+		if err := h(ctx, "FindChangesBetweenServerSeqs", Before, args); err != nil {
 			return nil, err
 		}
 	}
 	r, err := w.Database.FindChangesBetweenServerSeqs(ctx, docRefKey, from, to)
 	if h != nil && err == nil {
 		args.N = len(r)
-		if herr := h("FindChangesBetweenServerSeqs", After, args); herr != nil {
+		if herr := h(ctx, "FindChangesBetweenServerSeqs", After, args); herr != nil {
 			return nil, herr
 		}
 	}
@@ -210,14 +210,14 @@ func (w *DBWrap) FindClosestSnapshotInfo(
 	h := w.h()
 	args := &SnapshotArgs{Doc: docRefKey, ServerSeq: serverSeq}
 	if h != nil {
-		if err := h("FindClosestSnapshotInfo", Before, args); err != nil {
+		if err := h(ctx, "FindClosestSnapshotInfo", Before, args); err != nil {
 			return nil, err
 		}
 	}
 	r, err := w.Database.FindClosestSnapshotInfo(ctx, docRefKey, serverSeq, includeSnapshot)
 	if h != nil && err == nil {
 		args.Res = r
-		if herr := h("FindClosestSnapshotInfo", After, args); herr != nil {
+		if herr := h(ctx, "FindClosestSnapshotInfo", After, args); herr != nil {
 			return nil, herr
 		}
 	}
@@ -231,13 +231,13 @@ func (w *DBWrap) CreateSnapshotInfo(
 	h := w.h()
 	args := &SnapshotArgs{Doc: docRefKey, Stored: doc, ServerSeq: doc.Checkpoint().ServerSeq}
 	if h != nil {
-		if err := h("CreateSnapshotInfo", Before, args); err != nil {
+		if err := h(ctx, "CreateSnapshotInfo", Before, args); err != nil {
 			return err
 		}
 	}
 	err := w.Database.CreateSnapshotInfo(ctx, docRefKey, doc)
 	if h != nil && err == nil {
-		if herr := h("CreateSnapshotInfo", After, args); herr != nil {
+		if herr := h(ctx, "CreateSnapshotInfo", After, args); herr != nil {
 			return herr
 		}
 	}
@@ -250,13 +250,13 @@ func (w *DBWrap) FindClientInfoByRefKey(
 ) (*database.ClientInfo, error) {
 	h := w.h()
 	if h != nil {
-		if err := h("FindClientInfoByRefKey", Before, refKey); err != nil {
+		if err := h(ctx, "FindClientInfoByRefKey", Before, refKey); err != nil {
 			return nil, err
 		}
 	}
 	r, err := w.Database.FindClientInfoByRefKey(ctx, refKey, skipCache...)
 	if h != nil && err == nil {
-		if herr := h("FindClientInfoByRefKey", After, refKey); herr != nil {
+		if herr := h(ctx, "FindClientInfoByRefKey", After, refKey); herr != nil {
 			return nil, herr
 		}
 	}
@@ -267,13 +267,13 @@ func (w *DBWrap) FindClientInfoByRefKey(
 func (w *DBWrap) FindDocInfoByRefKey(ctx context.Context, refKey types.DocRefKey) (*database.DocInfo, error) {
 	h := w.h()
 	if h != nil {
-		if err := h("FindDocInfoByRefKey", Before, refKey); err != nil {
+		if err := h(ctx, "FindDocInfoByRefKey", Before, refKey); err != nil {
 			return nil, err
 		}
 	}
 	r, err := w.Database.FindDocInfoByRefKey(ctx, refKey)
 	if h != nil && err == nil {
-		if herr := h("FindDocInfoByRefKey", After, refKey); herr != nil {
+		if herr := h(ctx, "FindDocInfoByRefKey", After, refKey); herr != nil {
 			return nil, herr
 		}
 	}
